@@ -1,21 +1,19 @@
 import MimeModel.Model.Detect
-import MimeModel.Model.HtmlTok
+import MimeModel.Model.HtmlTokFull
 import MimeModel.Model.XmlTok
 import MimeModel.Gen.Tree
 /-
   The closed model of `Detect`: no oracle parameter left.  Every signature check of the current
   tree has a model (`Cust.customModel` is defined for every kind the extractor emits), the HTML
   token stream comes from the tokenizer model and the XML processing instruction from the decoder
-  model.  (For an attribute value containing `&` the tokenizer model does not answer; the closed
-  model then behaves as if the document declared nothing — such inputs are compared on the chain
-  only.)
+  model, character references in attribute values included (`HtmlTok.startTagsFull`).
 -/
 namespace Mime.Closed
 open Mime Mime.Cust
 
 def ext : Ext :=
   { cust := fun _ _ _ => false
-    htmlToks := fun h => (HtmlTok.startTags h).getD []
+    htmlToks := fun h => HtmlTok.startTagsFull h
     xmlInst := fun h => XmlTok.firstProcInst (trimLWS h) }
 
 /-- `mimetype.Detect` on the built-in tree: the chain (leaf first) and the leaf's charset parameter -/
